@@ -392,6 +392,31 @@ def make_case(op, args, nots=None):
         fn = G.ref_esubst if op == 'ES' else G.ref_ssubst
         return Case(op, args, lambda drop: fn(E(p, drop), x, E(g, drop), drop),
                     lambda ans, drop: E(_term(ans), drop), 'subst', PC.has_kind(p, 'I'), (p, g))
+    if op in ('DN', 'DNP'):
+        ts = [r.term()] + ([r.term()] if op == 'DNP' else [])
+
+        def spine(e):
+            args = []
+            while e[0] == 'a':
+                args.append(e[2])
+                e = e[1]
+            return (e, tuple(reversed(args)))
+
+        def one(ans, drop):
+            try:
+                rr = PC.Reader(ans)
+                if rr.next() != 'H':
+                    raise BadAnswer(ans)
+                h = rr.term()
+                args = rr.tuple()
+                if not rr.done():
+                    raise BadAnswer(ans)
+                return (E(h, drop), tuple(E(a, drop) for a in args))
+            except (ValueError, IndexError):
+                raise BadAnswer(ans)
+        return Case(op, args, lambda drop: tuple(spine(E(t, drop)) for t in ts),
+                    lambda ans, drop: tuple(one(part.strip(), drop) for part in ans.split(' | ')),
+                    'nary-spine', True, tuple(ts))
     if op in ('SIMP', 'HNF'):
         p = r.term()
         return Case(op, args, lambda drop: E(p, drop), lambda ans, drop: E(_term(ans), drop), 'simplify',
@@ -480,8 +505,10 @@ def case_inputs(op, args, nots=None):
     r = PC.Reader(args)
     if op in ('EQ', 'MP', 'MPS', 'MPX'):
         return [r.term(), r.term()], (), ()
-    if op in ('FR', 'GEN', 'GENS', 'MV', 'SIMP', 'HNF', 'UI', 'UA', 'DE', 'DS', 'DY', 'DX', 'DM'):
+    if op in ('FR', 'GEN', 'GENS', 'MV', 'SIMP', 'HNF', 'UI', 'UA', 'DE', 'DS', 'DY', 'DX', 'DM', 'DN'):
         return [r.term()], (), ()
+    if op == 'DNP':
+        return [r.term(), r.term()], (), ()
     if op in ('I', 'BI', 'BIS'):
         p = r.term()
         return [p] + [v for _, v in r.delta()], (), ()
